@@ -360,6 +360,21 @@ Theorem C16_languages_agree : forall (gstate value req : Type) (draw : req -> gs
 Proof. exact embed_call. Qed.
 Print Assumptions C16_languages_agree.
 
+(* ... and the two static analyses COINCIDE on embeddings: the source-level analysis accepts the embedding of a skeleton
+   exactly when the join-precise analysis of the first language accepts the skeleton, for EVERY skeleton (so
+   C16_skeletons_global_free + C16_join_precise_subsumes give: the source-level analysis accepts the embedding of every
+   hand-written skeleton of a seedable definition, for all option values -- universally, not only on the grid) *)
+Theorem C16_analyses_coincide : forall sk : skel, pglobal_free (embed sk) = global_free_w sk.
+Proof. exact pglobal_free_embed. Qed.
+Print Assumptions C16_analyses_coincide.
+
+Corollary C16_source_analysis_accepts_skeletons : forall (e : ep) (o : opts),
+  seedable e = true -> pglobal_free (embed (skeleton e o)) = true.
+Proof.
+  intros e o S. rewrite pglobal_free_embed. apply global_free_gfw. apply skeleton_gf; [left; reflexivity | exact S].
+Qed.
+Print Assumptions C16_source_analysis_accepts_skeletons.
+
 (* source level, out-of-range int seeds: a transcribed skeleton that certainly hands its own (not re-bound) random_state
    argument to check_random_state on every path ([pmust_check], evaluated by corr:C16-static on the source of every entry
    point whose hand-written skeleton always checks) fails for every int outside [0, 2**32), whatever the global state and
@@ -735,3 +750,44 @@ Example C16_new_instance_thread_example :
     Some (snd (thread Z Z nat toy_draw toy_seed (toy_seed 3%Z) (calls_on Z Z nat 1 h2))) /\
   snd (thread Z Z nat toy_draw toy_seed (toy_seed 3%Z) (calls_on Z Z nat 1 h2)) <> toy_seed 3%Z.
 Proof. vm_compute. repeat split; try reflexivity; discriminate. Qed.
+
+(* the two constructs the transcription of round 6 adds: a CHILD generator x = RandomState(<expr of drawn values>) is a safe
+   generator object (its draws are a function of the seed: same outcome from two global states, 3 draws), seeded from an
+   expression it may also fail (out-of-range int: as_seed of the toy interpretation is small, so it does not here); a raise
+   ([PFail]) on one branch of an argument validation does not hide the check on the other: the out-of-range criterion still
+   accepts, and rejects when the other branch returns early without checking *)
+Example C16_child_generator_and_raise_examples :
+  let sk := PSeq (PCheck 1 (PVar 0)) (PSeq (PDraw 1 0) (PSeq (PSeedFrom 2 0) (PSeq (PDraw 2 1) (PDraw 2 1)))) in
+  pglobal_free sk = true /\
+  fst (pcall Z Z nat toy_draw toy_seed toy_env toy_interp sk (HInt 3%Z) 0%Z) = fst (pcall Z Z nat toy_draw toy_seed toy_env toy_interp sk (HInt 3%Z) 9%Z) /\
+  length (o_hist (fst (pcall Z Z nat toy_draw toy_seed toy_env toy_interp sk (HInt 3%Z) 0%Z))) = 3 /\
+  o_failed (fst (pcall Z Z nat toy_draw toy_seed toy_env toy_interp sk (HInt 3%Z) 0%Z)) = false /\
+  pglobal_free (PSeq (PSeedFrom 2 0) (PSeq (PBranch 0 (PAssign 2 PGlobE) PSkip) (PDraw 2 1))) = false /\
+  pmust_check (PBranch 0 PFail (PSeq (PCheck 1 (PVar 0)) (PDraw 1 0))) = true /\
+  pmust_check (PBranch 0 PSkip (PSeq (PCheck 1 (PVar 0)) (PDraw 1 0))) = false /\
+  o_failed (fst (pcall Z Z nat toy_draw toy_seed toy_env toy_interp (PBranch 0 PFail (PCheck 1 (PVar 0))) (HInt 3%Z) 0%Z)) = true.
+Proof. vm_compute. repeat split; reflexivity. Qed.
+
+(* tensor_train / tensor_ring / tensor_train_matrix (E_tt_svd): no random_state parameter.  With a deterministic SVD they are in
+   the family of C16_deterministic_entry_points (nothing is drawn); with svd='randomized_svd' the model -- like the code -- draws
+   from the GLOBAL generator and moves it, and no argument can prevent that: they are then functions WITH random choices that
+   accept no seed, outside both clauses of the property *)
+Example C16_tt_svd_examples :
+  let o := fun sv => {| o_shape := [4; 3; 5]; o_rank := 2; o_init := ISvd; o_svd := sv; o_mask := false; o_nrep := 0; o_iters := 0; o_aux := 0 |} in
+  seedable E_tt_svd = false /\ deterministic_family E_tt_svd = true /\
+  draw_free (skeleton E_tt_svd (o STruncated)) = true /\ draw_free (skeleton E_tt_svd (o SSymeig)) = true /\
+  global_free_w (skeleton E_tt_svd (o SRandomized)) = false /\
+  model_projection E_tt_svd (o SRandomized) HNone = (true, true, false, false, true) /\
+  model_projection E_tt_svd (o SRandomized) (HInt 3%Z) = (true, true, false, false, true) /\
+  model_projection E_tt_svd (o STruncated) HNone = (true, false, false, false, false).
+Proof. vm_compute. repeat split; reflexivity. Qed.
+
+(* the five-bit projection under BOTH branch interpretations: for every modelled definition, every option value of the grid and
+   every kind of random_state, the run that takes the second alternative of every branch and leaves every loop at once draws
+   from no generator, moves no state and fails in no case that the first-alternative / full-loop run does not: the
+   interpretation used by corr:C16 is the maximal one (by computation; corr:C16 re-checks it per traced case) *)
+Example C16_first_interpretation_is_maximal :
+  forallb (fun e => forallb (fun o => forallb (fun a => proj_le (model_projection_alt e o a) (model_projection e o a))
+                                        [HNone; HInt 3%Z; HInt (-1)%Z; HInst 5%Z; HGlobObj; HBad]) opt_grid)
+          (seedable_eps ++ [E_cp_plsr; E_power_iteration; E_tt_svd; E_rng_free]) = true.
+Proof. vm_compute. reflexivity. Qed.
